@@ -52,6 +52,12 @@ func PlayMulti(beh M, rng *rand.Rand, proj *Projection) ([][]M, error) {
 	next := make([]int, nc)
 	nid := 0
 	rowTypes := []int{23, 25, 16, 701, 17, 20}
+	// now and then somebody else has connected first and says nothing for as long as the sessions last (a port
+	// scanner, a health check that only opens the socket, a client stalled in its start-up): nobody waits for it
+	var silent *mem.Conn
+	if I(beh, "_i")%4 == 0 {
+		silent = x.Dial()
+	}
 	// the clients connect in a burst: every connection is queued at the listener before the first one is waited for
 	for c := 0; c < nc; c++ {
 		conns[c] = x.Dial()
@@ -60,7 +66,7 @@ func PlayMulti(beh M, rng *rand.Rand, proj *Projection) ([][]M, error) {
 	for c := 0; c < nc; c++ {
 		conns[c].WaitQuiet(WaitTimeout) //nolint
 	}
-	actor := func(c int) string { return fmt.Sprintf("c%d", c+1) }
+	actor := func(c int) string { return fmt.Sprintf("c%d", conns[c].ID) }
 	send := func(c int, m M, wait bool) {
 		b := czs[c].Bytes(m)
 		conns[c].Send(b, mem.Ev{"k": "send", "m": m})
@@ -157,6 +163,10 @@ func PlayMulti(beh M, rng *rand.Rand, proj *Projection) ([][]M, error) {
 				x.Log.Append(mem.Ev{"k": "wedged", "conn": conns[c].ID})
 			}
 		}
+	}
+	if silent != nil {
+		silent.CloseClient()
+		silent.WaitClosed(WaitTimeout) //nolint
 	}
 	x.Shutdown()
 	// which type maps did each connection encode with?
